@@ -18,7 +18,8 @@ func BuildMerklePath(prefix [][]byte, path []byte) commitmenttypesv2.MerklePath 
 
 	// copy prefix to avoid modifying the original slice
 	fullPath := slices.Clone(prefix)
-	// append path to last element
-	fullPath[prefixLength-1] = append(fullPath[prefixLength-1], path...)
+	// append path to a copy of the last element: appending in place would write into the spare capacity
+	// of the caller's slice, which is shared by every path built from the same prefix
+	fullPath[prefixLength-1] = append(slices.Clone(fullPath[prefixLength-1]), path...)
 	return commitmenttypesv2.NewMerklePath(fullPath...)
 }
